@@ -16,10 +16,10 @@ cd "$WT"
 DEMO=$(ls $OUT/${M}_demo*_test.go 2>/dev/null | head -1)
 [ -n "$DEMO" ] || { echo "no demo"; exit 2; }
 cp "$DEMO" "$PKG/zz_${M}_demo_test.go"
-env ${DEMO_ENV:-} go test -count=1 -run "$RUN" "./$PKG" > /tmp/confirm.$$.a 2>&1; a=$?
+env ${DEMO_ENV:-} go test ${DEMO_FLAGS:-} -count=1 -run "$RUN" "./$PKG" > /tmp/confirm.$$.a 2>&1; a=$?
 git apply "$OUT/$M.diff" || git apply --3way "$OUT/$M.diff" || { echo "does not apply"; exit 2; }
 go build ./... || { echo "does not build"; exit 2; }
-env ${DEMO_ENV:-} go test -count=1 -run "$RUN" "./$PKG" > /tmp/confirm.$$.b 2>&1; b=$?
+env ${DEMO_ENV:-} go test ${DEMO_FLAGS:-} -count=1 -run "$RUN" "./$PKG" > /tmp/confirm.$$.b 2>&1; b=$?
 rm "$PKG/zz_${M}_demo_test.go"
 TOUCHED=$(git diff --name-only | xargs -n1 dirname | sort -u | sed 's|^|./|')
 go test -count=1 $TOUCHED "$@" > /tmp/confirm.$$.c 2>&1; c=$?
